@@ -367,9 +367,10 @@ def replay(cex):
     finally:
         shutil.rmtree(tmp, ignore_errors=True)
     msgs = []
-    if not np.allclose(got[0], want[0], rtol=1e-4, equal_nan=True):
+    if not np.allclose(got[0], want[0], rtol=1e-4, equal_nan=True,
+                       atol=1e-6*np.nanmax(np.abs(want[0]))):
         msgs.append("synthetic data differ")
-    if not np.isclose(got[1], want[1], rtol=1e-4):
+    if not np.isclose(got[1], want[1], rtol=1e-4, atol=0):
         msgs.append(f"misfit {got[1]:.6e} vs fresh {want[1]:.6e}")
     if got[2].shape != want[2].shape or not np.allclose(
             got[2], want[2], rtol=1e-3, atol=1e-3*np.abs(want[2]).max()):
